@@ -162,14 +162,14 @@ def judge(acc: Acc, flavour, case, obs, replay, sub=False):
     lg, size = legit(case)
     bound = PROMPT_CPU_S + lg / float(2 << 20)  # + 1 s per 2 MiB of data the input legitimately inflates to
     if cpu > bound:
-        acc.violation("%s:not-prompt:%s" % (site, input_class(case)), "%s used %.1f s of CPU (statement: terminates promptly; bound %.0f s for this input)" % (
-            describe(case), cpu, bound), replay)
+        acc.violation("%s:not-prompt:%s" % (site, input_class(case)), "%s used more than %.0f s of CPU (statement: terminates promptly)" % (
+            describe(case), bound), replay)  # no measured number in the summary: replays compare summaries
     allow = MEM_BASE_KIB + (8 * lg + 4 * size) // 1024
     if obs.vm_kib is not None and max(obs.vm_kib, obs.rss_kib) > allow:
         acc.outcome("%s:memory-out-of-proportion" % site)
         acc.violation("%s:memory-out-of-proportion:%s" % (site, input_class(case)),
-                      "%s grew the process by %d MiB virtual / %d MiB resident for %d bytes of input (allowance %d MiB)" % (
-                          describe(case), obs.vm_kib >> 10, obs.rss_kib >> 10, size, allow >> 10), replay)
+                      "%s grew the process (%s) by more than %d MiB for %d bytes of input" % (
+                          describe(case), "resident" if obs.rss_kib > allow else "address space reserved", allow >> 10, size), replay)
     return None
 
 
@@ -310,12 +310,8 @@ def work(task):
     """One unit: a slice of one group in one flavour.  Harness failures travel home in the Acc."""
     acc = Acc()
     try:
-        import time
-
         name, flavour, cases = task
-        t = time.time()
         evaluate(acc, flavour, cases, attack="attacks" in name)
-        acc.count("wall_ms:%s[%s]" % (name, flavour), int((time.time() - t) * 1000))
     except Exception as e:
         import traceback
 
